@@ -29,6 +29,19 @@ def deref(it, st, v):
     return v
 
 
+def ite_st(it, st, c, a, b):
+    """ite that also handles two shared references: the result points to a fresh cell holding the ite of the
+    referents (sound for read-only use, which is what `&T` results of lookups are)"""
+    if isinstance(a, Ptr) and isinstance(b, Ptr) and not (a.cell == b.cell and a.path == b.path):
+        c = simp(to_bool(c))
+        if z3.is_true(c):
+            return a
+        if z3.is_false(c):
+            return b
+        return Ptr(st.alloc(ite_st(it, st, c, it.load(st, a), it.load(st, b))))
+    return ite_val(c, a, b)
+
+
 def self_int_type(ctx):
     """`core::num::<impl u128>::saturating_add` -> 'u128'"""
     m = re.search(r'<impl (\w+)>', ctx.callee)
@@ -327,7 +340,7 @@ def _panic_fork(it, st, ok_cond, value, msg, ctx):
     return outs
 
 
-@summary(r'Option::<.*>::(unwrap|expect)$')
+@summary(r'Option::<.*>::(unwrap|expect)(::<.*>)?$')
 def _option_unwrap(it, st, args, ctx):
     o = _enum_arg(it, st, args[0])
     if 'Some' not in o.payloads:
@@ -336,7 +349,7 @@ def _option_unwrap(it, st, args, ctx):
                        'called `Option::unwrap()` on a `None` value', ctx)
 
 
-@summary(r'Result::<.*>::(unwrap|expect)$')
+@summary(r'Result::<.*>::(unwrap|expect)(::<.*>)?$')
 def _result_unwrap(it, st, args, ctx):
     o = _enum_arg(it, st, args[0])
     if 'Ok' not in o.payloads:
@@ -345,15 +358,15 @@ def _result_unwrap(it, st, args, ctx):
                        'called `Result::unwrap()` on an `Err` value', ctx)
 
 
-@summary(r'Option::<.*>::unwrap_or$')
+@summary(r'Option::<.*>::unwrap_or(::<.*>)?$')
 def _option_unwrap_or(it, st, args, ctx):
     o = _enum_arg(it, st, args[0])
     if 'Some' not in o.payloads:
         return args[1]
-    return ite_val(simp(is_variant(o, 'Some')), o.payloads['Some'][0], args[1])
+    return ite_st(it, st, simp(is_variant(o, 'Some')), o.payloads['Some'][0], args[1])
 
 
-@summary(r'Result::<.*>::unwrap_or$')
+@summary(r'Result::<.*>::unwrap_or(::<.*>)?$')
 def _result_unwrap_or(it, st, args, ctx):
     o = _enum_arg(it, st, args[0])
     if 'Ok' not in o.payloads:
@@ -361,7 +374,7 @@ def _result_unwrap_or(it, st, args, ctx):
     return ite_val(simp(is_variant(o, 'Ok')), o.payloads['Ok'][0], args[1])
 
 
-@summary(r'Option::<.*>::unwrap_or_default$')
+@summary(r'Option::<.*>::unwrap_or_default(::<.*>)?$')
 def _option_unwrap_or_default(it, st, args, ctx):
     o = _enum_arg(it, st, args[0])
     d = default_value(it, ctx.dest_ty)
@@ -370,21 +383,21 @@ def _option_unwrap_or_default(it, st, args, ctx):
     return ite_val(simp(is_variant(o, 'Some')), o.payloads['Some'][0], d)
 
 
-@summary(r'Option::<.*>::(is_some|is_none)$')
+@summary(r'Option::<.*>::(is_some|is_none)(::<.*>)?$')
 def _option_is(it, st, args, ctx):
     o = _enum_arg(it, st, args[0])
     c = is_variant(o, 'Some')
     return simp(c if ctx.callee.endswith('is_some') else z3.Not(c))
 
 
-@summary(r'Result::<.*>::(is_ok|is_err)$')
+@summary(r'Result::<.*>::(is_ok|is_err)(::<.*>)?$')
 def _result_is(it, st, args, ctx):
     o = _enum_arg(it, st, args[0])
     c = is_variant(o, 'Ok')
     return simp(c if ctx.callee.endswith('is_ok') else z3.Not(c))
 
 
-@summary(r'Option::<.*>::ok_or$')
+@summary(r'Option::<.*>::ok_or(::<.*>)?$')
 def _option_ok_or(it, st, args, ctx):
     o = _enum_arg(it, st, args[0])
     c = simp(is_variant(o, 'Some'))
@@ -398,7 +411,7 @@ def _option_ok_or(it, st, args, ctx):
     return EnumV('Result', z3.If(c, bv(0, 8), bv(1, 8)), pl)
 
 
-@summary(r'Result::<.*>::ok$')
+@summary(r'Result::<.*>::ok(::<.*>)?$')
 def _result_ok(it, st, args, ctx):
     o = _enum_arg(it, st, args[0])
     c = simp(is_variant(o, 'Ok'))
@@ -407,7 +420,7 @@ def _result_ok(it, st, args, ctx):
     return mk_option(c, o.payloads['Ok'][0])
 
 
-@summary(r'Option::<.*>::(copied|cloned)$')
+@summary(r'Option::<.*>::(copied|cloned)(::<.*>)?$')
 def _option_copied(it, st, args, ctx):
     o = _enum_arg(it, st, args[0])
     if 'Some' not in o.payloads:
@@ -416,7 +429,7 @@ def _option_copied(it, st, args, ctx):
     return EnumV('Option', o.disc, {'Some': (inner,), 'None': ()})
 
 
-@summary(r'Option::<.*>::as_ref$')
+@summary(r'Option::<.*>::as_ref(::<.*>)?$')
 def _option_as_ref(it, st, args, ctx):
     o = _enum_arg(it, st, args[0])
     if 'Some' not in o.payloads:
@@ -517,7 +530,10 @@ def default_value(it, ty):
 @summary(r'^<.* as (std::default::)?Default>::default$')
 def _default(it, st, args, ctx):
     m = re.match(r'^<(.*) as (?:std::default::)?Default>::default$', ctx.callee)
-    return default_value(it, m.group(1))
+    try:
+        return default_value(it, m.group(1))
+    except Unsupported:
+        return NotImplemented
 
 
 @summary(r'^<.* as (std::clone::)?Clone>::clone$')
@@ -645,3 +661,10 @@ def _int_op_assign(it, st, args, ctx):
         it.store(st, args[0], r)
         outs.append((st, Ret(UNIT)))
     return outs
+
+
+@summary(r'^<.* as (std::ops::)?(Fn|FnMut|FnOnce)<.*>>::(call|call_mut|call_once)$')
+def _fn_call(it, st, args, ctx):
+    clo = args[0]
+    tup = args[1]
+    return it.call_closure(st, clo, list(tup.fields), ctx)
